@@ -230,7 +230,7 @@ CHECKS = {
             "IndexSet<Ccy> insert / get_index_of / index, Array2::from_shape_vec / into_iter, Vec::clone_from, Iterator fold / enumerate / all / any: shim contracts",
         ],
         "uncovered": [
-            "sensitivity VALUES are proved at BOTH orders (the fill-in extracted a second and third time at T := Dual / Dual2 with additive-potential invariants: grad(cross i->j)(variable of quote k) * quote_k == (h_j - h_i) * cross, and 2 * hess2(cross)(t1, t2) * q1 * q2 == (S1*S2 - [same quote]*S1) * cross; lemma_seed_elastic / lemma_seed_el2, lemma_fx_sensitivity / lemma_fx_sensitivity2); that a tree of quotes HAS the side labelling h (the two sides of the tree without edge k) is textbook and not machine-checked, the seeding function is read at T := Dual / Dual2 from its contract at the abstract ring, distinct quotes are taken to have distinct variable names, and termination of the two extra copies is not re-proved",
+            "sensitivity VALUES are proved at BOTH orders (the fill-in extracted a second and third time at T := Dual / Dual2 with additive-potential invariants: grad(cross i->j)(variable of quote k) * quote_k == (h_j - h_i) * cross, and 2 * hess2(cross)(t1, t2) * q1 * q2 == (S1*S2 - [same quote]*S1) * cross; lemma_seed_elastic / lemma_seed_el2, lemma_fx_sensitivity / lemma_fx_sensitivity2); that a tree of quotes HAS the side labelling h (the two sides of the tree without edge k) is textbook and not machine-checked, the seeding function is read at T := Dual / Dual2 from its contract at the abstract ring, and distinct quotes are taken to have distinct variable names (termination of the two extra copies is proved with the same measure)",
             "the characters of the name fx_xxxyyy (formatting macro): bounded probe only",
             "Python wrappers (fx_py.rs)",
         ],
